@@ -151,6 +151,62 @@ def check_leg_transforms(rec, leg, rng, others=None):
     rec.check(np.array_equal(qflat_phys(e2)[:leg.ind_len], q) and e2.ind_len == leg.ind_len + 2, 'LegCharge.extend(int):prefix', '', inp)
 
 
+def check_multi_pipe(rec, rng, quick):
+    """combine into two (or three) pipes at once and split all of them again: legs, order, labels and entries restored -
+    for tensors with random entries, with a single stored block and with no stored block at all"""
+    import tenpy.linalg.np_conserved as npc
+    from . import gen
+    for ci, chinfo in enumerate(gen.chinfos()[:5]):
+        for k in range(6 if quick else 60):
+            rank = int(rng.integers(3, 6))
+            legs = [gen.random_leg(rng, chinfo, max_size=2) for _ in range(rank)]
+            labels = [f'l{i}' for i in range(rank)]
+            order = [int(x) for x in rng.permutation(rank)]
+            cut = sorted(int(x) for x in rng.choice(np.arange(1, rank), size=min(2, rank - 1), replace=False))
+            groups = [order[:cut[0]], order[cut[0]:cut[-1]]] + ([order[cut[-1]:]] if k % 3 == 0 else [])
+            groups = [g for g in groups if len(g) >= 1]
+            if sum(len(g) > 1 for g in groups) == 0:
+                continue
+            for fill in ('random', 'zeros', 'one-block'):
+                inp = {'mod': chinfo.mod.tolist(), 'rank': rank, 'groups': groups, 'fill': fill}
+                rec.begin(f'C06 multi-pipe {inp}')
+                if fill == 'zeros':
+                    a = npc.zeros(legs, labels=labels)
+                else:
+                    a = gen.random_array(rng, legs, float, labels=labels)
+                    if fill == 'one-block' and len(a._data) > 1:
+                        a._data, a._qdata = a._data[:1], a._qdata[:1]
+                ok, c = rec.guarded('combine_legs(multi):exception', lambda: a.combine_legs([[labels[i] for i in g] for g in groups]), inp)
+                rec.case(('multi-pipe', ci, k, fill), True, sample=inp if k == 0 and fill == 'zeros' else None)
+                if not ok:
+                    continue
+                bad = gen.sanity(c)
+                rec.check(not bad, 'combine_legs(multi):invariant', bad[0] if bad else '', inp)
+                names = []
+                for lbl in c.get_leg_labels():
+                    names.extend(lbl.strip('()').split('.'))
+                ref = a.transpose(names)
+                ok, back = rec.guarded('split_legs(all):exception', lambda: c.split_legs(), inp)
+                if not ok:
+                    continue
+                good = (back.rank == ref.rank and back.shape == ref.shape and list(back.get_leg_labels()) == list(ref.get_leg_labels())
+                        and not any(hasattr(l, 'legs') for l in back.legs))
+                if good:
+                    for lb, la in zip(back.legs, ref.legs):
+                        try:
+                            lb.test_equal(la)
+                        except ValueError:
+                            good = False
+                good = good and not gen.sanity(back) and np.array_equal(back.to_ndarray(), ref.to_ndarray())
+                rec.check(good, f'split_legs(all pipes, {fill}):roundtrip', 'combine into several pipes + split does not restore the tensor', inp)
+                # splitting pipe by pipe gives the same
+                step = c
+                for _ in range(len([l for l in c.legs if hasattr(l, 'legs')])):
+                    first = [i for i, l in enumerate(step.legs) if hasattr(l, 'legs')][0]
+                    step = step.split_legs([first])
+                rec.check(step.shape == ref.shape and np.array_equal(step.to_ndarray(), ref.to_ndarray()), f'split_legs(one by one, {fill}):roundtrip', '', inp)
+
+
 def run(rec):
     warnings.simplefilter('ignore')
     rng = np.random.default_rng(rec.seed + 6)
@@ -194,5 +250,6 @@ def run(rec):
             rec.begin(f'C06 pipe mod={mod} {nl} legs sample {k}')
             check_pipe(rec, sel, qconj, sort, bunch)
             rec.case(('pipeN', mod, k), True)
+    check_multi_pipe(rec, rng, quick)
     if quick:
         rec.exhaustive = False
